@@ -75,8 +75,24 @@ struct DK_ : state_machine_def<DK_> {
 };
 typedef BE<DK_> DK;
 #endif
+// "exact-type, base-class and Kleene transitions for the same state compete purely by table position": here the Kleene row is declared LAST,
+// so it is tried first and - its guard holding - wins over the base-class and exact rows (C18, C01)
+struct ActAnyWins { template<class F,class S,class T> void operator()(boost::any const& e,F&,S&,T&){ g_log += std::string("kleene:") + (boost::any_cast<derived_ev>(&e) ? "derived" : boost::any_cast<base_ev>(&e) ? "base" : "other") + " "; } };
+struct KP_ : state_machine_def<KP_> {
+  struct S0 : state<> {}; struct S1 : state<> {}; struct S2 : state<> {}; struct S3 : state<> {};
+  typedef S0 initial_state;
+  struct transition_table : mpl::vector<
+    Row<S0, derived_ev, S3, ActExact, none>,      // declared first: lowest priority
+    Row<S0, base_ev,    S2, ActBase, none>,
+    Row<S0, boost::any, S1, ActAnyWins, none> > {};   // declared last: tried first
+  template<class F,class Ev> void no_transition(Ev const&,F&,int){ g_log += "NT "; }
+};
+typedef BE<KP_> KP;
 int main(int argc, char** argv) {
   if (argc > 1) g_only = argv[1];
+  { KP m; m.start(); g_log.clear(); m.process_event(derived_ev(11)); const std::string a1 = g_log;
+    KP n; n.start(); g_log.clear(); n.process_event(base_ev(22));
+    report("kleene-row-declared-last-wins-over-typed-rows", a1 == "kleene:derived " && g_log == "kleene:base ", "C18,C01,C13", "derived event log=[" + a1 + "] base event log=[" + g_log + "]"); }
 #if !IS_MP11
   { DK m; m.start(); g_log.clear(); m.process_event(stranger(5)); const std::string first = g_log;
     m.process_event(other_ev(9)); m.process_event(nxt());
